@@ -145,6 +145,11 @@ def run(ctx):
     ctx.floor("R1", 10)
 
     # ---- R2 write order --------------------------------------------------------------------
+    # a write is a write: no "already current" early-out may skip the segment (equality of the old and new mapping is not
+    # equality of what a reader gets back: order, bytes vs text, duplicates)
+    from ..core import generic as G
+    G.always_reaches(ctx, "R2", MOD, "Xpak.write_xpak", lambda c: A.call_attr(c) == "truncate",
+                     "the write of the new segment (ending in `handle.truncate()`)", "write-always-writes")
     g = cfg_of(wx.node)
     seek = [c for c in A.calls(wx.node) if A.unparse(c.func) == f"{hn}.seek"]
     hdr = [c for c in A.calls(wx.node) if A.unparse(c.func) == "cls.header.write"]
